@@ -276,13 +276,13 @@ example : Spec.judgeProgress "mpaxos" ⟨0, 1, 0, 12, 12⟩ [.prop 0 3 1 1, .pro
 example : Spec.judgeProgress "mpaxos" ⟨0, 2, 0, 12, 12⟩ [.prop 0 3 1 1] [] [(0, 1)] [] = none := by decide
 example : Spec.judgeProgress "mpaxos" ⟨0, 1, 0, 12, 11⟩ [.prop 0 3 1 1] [] [(0, 1)] [] = none := by decide
 
-/-- the full statement (not proved in general; the `decide` example above is its instance n = 3, cs = [1, 2]):
-    `cs` are submitted to node `p` of a fresh cluster, then the only `start()`, then the `q1 - 1` promises it
-    needs; after any stable action sequence in which every slot gets its acknowledgements, all of `cs` are
-    committed on `p` and the i-th `submit()` future is resolved with `(i + 1, cs[i])`.  Proved is its core from
-    the instant the leader has assigned its slots (`stable_leader_commits_any_ack_order`,
-    `stable_leader_resolves_future`); the set-up phase (`becomeLeader` assigns slots 1..k with one
-    acknowledgement each and leaves the node caught up) is not proved for arbitrary `cs`. -/
+/-- the full statement (proved in `MPFull.lean`: `stable_leader_progress`; the `decide` example above is its
+    instance n = 3, cs = [1, 2]): `cs` are submitted to node `p` of a fresh cluster, then the only `start()`, then the
+    `q1 - 1` promises it needs; after any stable action sequence in which every slot gets its acknowledgements, all of
+    `cs` are committed on `p` and the i-th `submit()` future is resolved with `(i + 1, cs[i])`.  Its core from the
+    instant the leader has assigned its slots is `stable_leader_commits_any_ack_order` /
+    `stable_leader_resolves_future`; `MPSetup.lean` and `MPFull.lean` add the set-up phase (`becomeLeader` assigns
+    slots 1..k with one acknowledgement each and leaves the node caught up). -/
 def stable_leader_progress_full : Prop :=
   ∀ (n q1 q2 : Nat) (flex : Bool) (p : Nat) (cs : List Nat) (as : List Act),
     p < n → 1 ≤ q1 → 1 ≤ q2 →
